@@ -16,6 +16,7 @@ import (
 	"context"
 	"encoding/json"
 	"fmt"
+	"reflect"
 	"strings"
 	"sync"
 	"testing"
@@ -43,14 +44,15 @@ type Work struct {
 	CtxMode   int    `json:"ctx_mode,omitempty"` // 0 simulated cancellable context, 1 context.Background()
 	Workers   int    `json:"workers,omitempty"`  // >1: the last channel is drained by a pool of this many goroutines (fan-out)
 	WorkForm  int    `json:"work_form,omitempty"`
-	ResBuf    int    `json:"res_buf,omitempty"`   // buffer of the pool's result channel (0 = 2)
-	AnonSend  bool   `json:"anon_send,omitempty"` // sends go through an anonymous call site shared by several goroutines
-	Nils      bool   `json:"nils,omitempty"`      // interface channels also carry nil items
-	Scale     int64  `json:"scale,omitempty"`     // numeric items are multiplied by this (negative and large values; 0 = 1)
-	CapExpr   int    `json:"cap_expr,omitempty"`  // how buffer sizes are spelled: 0 literal, 1 `1 + 1`-style sum, 2 float literal
-	Helper    bool   `json:"helper,omitempty"`    // goroutines are started from inside helper functions that return at once (closures keep the helper's parameters)
-	DeferEnd  bool   `json:"defer_end,omitempty"` // stages signal their end (close / done) from a deferred call
-	Shadow    bool   `json:"shadow,omitempty"`    // outer variables named like the for-in loop variables exist (a for-in variable is a fresh binding per loop)
+	ResBuf    int    `json:"res_buf,omitempty"`    // buffer of the pool's result channel (0 = 2)
+	AnonSend  bool   `json:"anon_send,omitempty"`  // sends go through an anonymous call site shared by several goroutines
+	Nils      bool   `json:"nils,omitempty"`       // interface channels also carry nil items
+	Scale     int64  `json:"scale,omitempty"`      // numeric items are multiplied by this (negative and large values; 0 = 1)
+	CapExpr   int    `json:"cap_expr,omitempty"`   // how buffer sizes are spelled: 0 literal, 1 `1 + 1`-style sum, 2 float literal
+	Helper    bool   `json:"helper,omitempty"`     // goroutines are started from inside helper functions that return at once (closures keep the helper's parameters)
+	DeferEnd  bool   `json:"defer_end,omitempty"`  // stages signal their end (close / done) from a deferred call
+	HostDrain int    `json:"host_drain,omitempty"` // 1: the script only starts the pipeline and returns its last channel, the host drains it after the run returned; 2: a second run on the same environment is the consumer
+	Shadow    bool   `json:"shadow,omitempty"`     // outer variables named like the for-in loop variables exist (a for-in variable is a fresh binding per loop)
 }
 
 type Prop struct{}
@@ -111,6 +113,13 @@ func (Prop) Gen(seed int64, tier string) *harness.Case {
 	w.Shadow = r.Intn(2) == 0
 	w.Helper = r.Intn(3) == 0
 	w.DeferEnd = r.Intn(3) == 0
+	if r.Intn(4) == 0 {
+		// goroutines started by a run are not tied to that run: they keep the pipeline going after it returned
+		w.HostDrain = 1 + r.Intn(2)
+		if w.HostDrain == 1 && w.ConsForm == 3 {
+			w.ConsForm = r.Intn(3)
+		}
+	}
 	if tier == "real" {
 		// the real-thread leg wants contention: many items, pools of receivers, no sleeps
 		for i := range w.Items {
@@ -228,7 +237,7 @@ func fwdValue(v interface{}) interface{} {
 
 // switchConsumer: the final consumer is `switch <-ch { case a, b: ... }` in a counted loop (ConsForm 3).
 func (w *Work) switchConsumer() bool {
-	return w.ConsForm == 3 && w.Elem == "int64" && !w.Nils && w.Workers <= 1
+	return w.ConsForm == 3 && w.Elem == "int64" && !w.Nils && w.Workers <= 1 && w.HostDrain != 1
 }
 
 // wantClasses is what the switch consumer must count.
@@ -446,6 +455,14 @@ func Render(w *Work) string {
 		fmt.Fprintf(&b, "go func() {\nfor k = 0; k < %d; k++ { <-wd }\nclres = true\nclose(res)\n}()\n", w.Workers)
 		last = "res"
 	}
+	if w.HostDrain == 1 {
+		// the run ends here, the goroutines go on: the host receives from the returned channel
+		b.WriteString(last + "\n")
+		return b.String()
+	}
+	if w.HostDrain == 2 {
+		b.WriteString(last + "\n" + SplitMark)
+	}
 	b.WriteString("out = []\n")
 	if w.switchConsumer() {
 		// the consumer dispatches on the received value: the tag `<-ch` must be evaluated once per message
@@ -492,6 +509,37 @@ func Render(w *Work) string {
 	}
 	b.WriteString("out\n")
 	return b.String()
+}
+
+// SplitMark separates the two runs of a HostDrain=2 program (both on one environment).
+const SplitMark = "# ---- second run, same environment ----\n"
+
+// runParts executes the program: one run, or two consecutive runs on the same environment.
+func runParts(w *Work, src string, run func(part string) (interface{}, error)) (interface{}, error) {
+	if w.HostDrain != 2 {
+		return run(src)
+	}
+	parts := strings.SplitN(src, SplitMark, 2)
+	if _, err := run(parts[0]); err != nil {
+		return nil, err
+	}
+	return run(parts[1])
+}
+
+// hostDrain receives from the channel a HostDrain=1 program returned until it is closed.
+func hostDrain(ch interface{}, yield func(), emit func(interface{})) error {
+	rv := reflect.ValueOf(ch)
+	if !rv.IsValid() || rv.Kind() != reflect.Chan {
+		return fmt.Errorf("the script returned %#v, not its last channel", ch)
+	}
+	for {
+		yield()
+		v, ok := rv.Recv()
+		if !ok {
+			return nil
+		}
+		emit(v.Interface())
+	}
 }
 
 type item struct {
@@ -578,7 +626,7 @@ func (Prop) Run(t *testing.T, c *harness.Case, verbose bool) *harness.Result {
 		return res
 	}
 	src := Render(&w)
-	stmt, err := parser.ParseSrc(src)
+	_, err := parser.ParseSrc(src)
 	if err != nil {
 		res.Inconclusive = "generator produced a script that does not parse: " + err.Error() + "\n" + src
 		return res
@@ -597,7 +645,14 @@ func (Prop) Run(t *testing.T, c *harness.Case, verbose bool) *harness.Result {
 	var mainDone bool
 	var fake time.Duration
 	leaked := harness.Bubble(t, func() {
-		budget := 60*(total*stages+len(w.Items)+stages+2) + 400
+		// A generous step budget: a deadlock is detected as such (no runnable task), so the budget only has to
+		// end a livelock. It must never bind on a run that makes progress (fan-out adds a hop, sleeps and
+		// starved schedules add steps): 20x what the longest clean run of the thorough tier needed.
+		hops := stages + 1
+		if w.Workers > 1 {
+			hops += 2
+		}
+		budget := 1200*(total*hops+len(w.Items)+hops+w.Workers+2) + 8000
 		sim = simrt.New(c.Choices, budget)
 		ctx := sim.NewCtx()
 		e := env.NewEnv()
@@ -643,10 +698,22 @@ func (Prop) Run(t *testing.T, c *harness.Case, verbose bool) *harness.Result {
 			}
 		})
 		sim.Spawn("main", func() {
-			if w.CtxMode == 1 {
-				mainVal, mainErr = vm.RunContext(context.Background(), e, &vm.Options{Debug: false}, stmt)
-			} else {
-				mainVal, mainErr = vm.RunContext(ctx, e, &vm.Options{Debug: false}, stmt)
+			mainVal, mainErr = runParts(&w, src, func(part string) (interface{}, error) {
+				st, perr := parser.ParseSrc(part)
+				if perr != nil {
+					return nil, perr
+				}
+				if w.CtxMode == 1 {
+					return vm.RunContext(context.Background(), e, &vm.Options{Debug: false}, st)
+				}
+				return vm.RunContext(ctx, e, &vm.Options{Debug: false}, st)
+			})
+			if w.HostDrain == 1 && mainErr == nil {
+				mainErr = hostDrain(mainVal, func() { simrt.Yield("hostrecv") }, func(v interface{}) {
+					mu.Lock()
+					got = append(got, v)
+					mu.Unlock()
+				})
 			}
 			mainDone = true
 		})
@@ -687,8 +754,11 @@ func (Prop) Run(t *testing.T, c *harness.Case, verbose bool) *harness.Result {
 		res.Violation, res.Detail, res.Signature = class, detail+"\n"+src, class
 		return res
 	}
-	if w.Epilogue {
+	if w.Epilogue && w.HostDrain != 1 {
 		res.Counters["epilogue_checked"]++
+	}
+	if w.HostDrain != 0 {
+		res.Counters[fmt.Sprintf("pipeline_outlives_run_mode%d", w.HostDrain)]++
 	}
 	return res
 }
@@ -795,10 +865,10 @@ func judge(wp *Work, got []interface{}, probes map[string]interface{}, mainVal i
 			return fail("lost-item", fmt.Sprintf("%d nil items were sent on the interface channel, %d were delivered (delivered: %s)", wantNil, gotNil, order))
 		}
 		// the collected list returned to the host equals what was emitted
-		if lst, ok := mainVal.([]interface{}); !w.Nils && (!ok || fmt.Sprint(lst) != order) {
+		if lst, ok := mainVal.([]interface{}); !w.Nils && w.HostDrain != 1 && (!ok || fmt.Sprint(lst) != order) {
 			return fail("result-mismatch", fmt.Sprintf("script returned %#v, emitted %s", mainVal, order))
 		}
-		if w.Epilogue {
+		if w.Epilogue && w.HostDrain != 1 {
 			if v, ok := probes["recv-closed"]; !ok || v != nil {
 				return fail("closed-recv", fmt.Sprintf("receive expression on a closed, drained channel yielded %#v, expected nil", v))
 			}
@@ -834,7 +904,7 @@ func RunReal(c *harness.Case) (string, string) {
 		return "", ""
 	}
 	src := Render(&w)
-	stmt, err := parser.ParseSrc(src)
+	_, err := parser.ParseSrc(src)
 	if err != nil {
 		return "", ""
 	}
@@ -873,7 +943,23 @@ func RunReal(c *harness.Case) (string, string) {
 	})
 	ctx, cancel := context.WithTimeout(context.Background(), 45*time.Second)
 	defer cancel()
-	val, rerr := vm.RunContext(ctx, e, &vm.Options{Debug: false}, stmt)
+	val, rerr := runParts(&w, src, func(part string) (interface{}, error) {
+		st, perr := parser.ParseSrc(part)
+		if perr != nil {
+			return nil, perr
+		}
+		return vm.RunContext(ctx, e, &vm.Options{Debug: false}, st)
+	})
+	if w.HostDrain == 1 && rerr == nil {
+		drained := make(chan error, 1)
+		go func() {
+			drained <- hostDrain(val, func() {}, func(v interface{}) { mu.Lock(); got = append(got, v); mu.Unlock() })
+		}()
+		select {
+		case rerr = <-drained:
+		case <-ctx.Done():
+		}
+	}
 	if ctx.Err() != nil {
 		return "pipeline-stuck", "the pipeline did not finish within 45 s on real goroutines (delivered so far: " + fmt.Sprint(got) + ")\n" + src
 	}
